@@ -521,6 +521,8 @@ def second_pass(ctx, ops, model_out, go_out):
 
 
 def run(ctx):
+    with Lock():
+        heal_extract()
     standard_run(
         ctx, props=PROPS, family=FAMILY, consts=["Frame", "Prim"], go_runner=GO.runner, gen_ops=gen_ops, oracle=oracle,
         corr_name="corr:C35:frame", post=second_pass,
